@@ -284,6 +284,24 @@ func c12Thresholds(c *Ctx) {
 				ok41 = mustPass(fn, e.Instr.Block(), out)
 			}
 		}
+		// the same search with `break` instead of `return s` and a single `return s` after the loop: s is then either the
+		// hit index or 41 (the counter after 41 misses)
+		if !ok41 && in && len(hit) == 1 && len(out) == 1 {
+			both := append(append([]ana.Edge{}, hit...), out...)
+			n := 0
+			for _, e := range ana.Exits(fn) {
+				if e.Panic {
+					continue
+				}
+				n++
+				if b.Of(e.Results[0], e.Instr).String() == "ind<+1>(0)" && mustPass(fn, e.Instr.Block(), both) {
+					okS, ok41 = true, true
+				}
+			}
+			if n != 1 {
+				ok41 = false
+			}
+		}
 		// the same search written as `for v < lx { if s == 40 { return 41 }; v *= 3; s++ }; return s`: the miss edge
 		// v < lx is the loop condition, and 41 is returned exactly when the 41st comparison (s == 40, v = 3^40) missed too
 		if !(ok41 && in) {
